@@ -76,8 +76,12 @@ def write_fasta(path, recs, wrap=None, names=None, gz=False, crlf=False, header_
 def write_ref_variant(rnd, d, base, name="g"):
     """a single-sequence reference in one of the forms a user has lying around: one line, wrapped,
     CRLF, gzip, multi-member gzip (what bgzip or `cat a.gz b.gz` produce); returns the path"""
-    form = rnd.choice(["plain", "plain", "wrap", "crlf", "gz", "mgz", "mgz"])
+    form = rnd.choice(["plain", "plain", "wrap", "crlf", "gz", "mgz", "mgz", "trail", "blocks"])
     lines = [">" + name] + ([base] if form == "plain" else [base[j:j + 60] for j in range(0, len(base), 60)])
+    if form == "trail":       # a blank (or tab) at the end of every sequence line
+        lines = [lines[0]] + [l + (" " if i % 2 else "\t") for i, l in enumerate(lines[1:])]
+    if form == "blocks":      # blocks of ten separated by blanks, as sequence databases print them
+        lines = [lines[0]] + [" ".join(l[j:j + 10] for j in range(0, len(l), 10)) for l in lines[1:]]
     eol = "\r\n" if form == "crlf" else "\n"
     if form in ("gz", "mgz"):
         path = os.path.join(d, "ref.fa.gz")
@@ -318,7 +322,8 @@ def c02_cli(ctx, broken):
             sub = os.path.join(d2, rnd.choice(["", "sub.dir"]))
             os.makedirs(sub, exist_ok=True)
             f = os.path.join(sub, stem + ext)
-            write_fasta(f, recs2, wrap=wrap, gz=gz, crlf=crlf, header_extra=extra)
+            write_fasta(f, recs2, wrap=wrap, gz=gz, crlf=crlf, header_extra=extra,
+                        names=(["contig"] * len(recs2) if rnd.random() < 0.3 else None))
             files2.append(f)
             how.append({"gz": gz, "wrap": wrap, "crlf": crlf, "file": os.path.relpath(f, d2)})
         order = list(range(nsamp))
@@ -925,6 +930,34 @@ def c19_cli(ctx, broken):
                         "violation": {"kind": "c19-cli", "what": f"{name} accepted a damaged file and gave a different result", "fault": what,
                                       "expected_rows": len(ref_out[name][1] or []), "observed_rows": len(res or [])}}
         nontriv += 1
+    # files as the overwriting subcommands leave them: after an in-place `ska delete` and an in-place `ska weed`
+    # every fault in the tail of the file (where anything appended or rewritten last would sit) through nk --full-info
+    for how in ("delete", "weed"):
+        tgt = os.path.join(d, f"inplace_{how}.skf")
+        shutil.copyfile(os.path.join(d, "good.skf"), tgt)
+        args = ["delete", "-s", tgt, "s0"] if how == "delete" else ["weed", tgt, os.path.join(d, "ref.fa"), "--reverse"]
+        code, out, err = ska(args, d)
+        if code != 0:
+            continue
+        data0 = open(tgt, "rb").read()
+        code, ref_nk, err = ska(["nk", "--full-info", tgt], d)
+        ref_rows = sorted_rows(ref_nk)
+        span = min(len(data0), 96 if thorough else 48)
+        faults = [("truncate %d" % c, data0[:c]) for c in range(len(data0) - span, len(data0))]
+        for pos in range(len(data0) - span // 2, len(data0)):
+            for bit in range(8):
+                dmg = bytearray(data0)
+                dmg[pos] ^= 1 << bit
+                faults.append((f"flip {pos}.{bit}", bytes(dmg)))
+        for what, dmg in faults:
+            open(os.path.join(d, "bad2.skf"), "wb").write(dmg)
+            code, out, err = ska(["nk", "--full-info", os.path.join(d, "bad2.skf")], d)
+            evals += 1
+            if code == 0 and sorted_rows(out) != ref_rows:
+                return {"summary": {"evaluations": evals, "nontrivial": nontriv},
+                        "violation": {"kind": "c19-cli", "what": f"a damaged copy of a file last written by an in-place `ska {how}` was accepted with other content",
+                                      "fault": what, "file_bytes": len(data0)}}
+        nontriv += 1
     if 1 not in chunk_types or 0 not in chunk_types:
         return {"summary": {"evaluations": evals, "nontrivial": nontriv},
                 "violation": {"kind": "c19-faults", "what": f"the generated files no longer cover both a compressed and an uncompressed first chunk (types seen: {chunk_types}); the check would not exercise both CRC paths"},
@@ -1066,7 +1099,9 @@ def auto_mincount_cli(ctx, broken):
         strand = [] if rc else ["--single-strand"]
         # ska cov ignores base qualities: so must the two builds
         noq = ["--qual-filter", "no-filter"]
-        code_a, out, err_a = ska(["build", "-f", lst, "-k", str(k), "--min-count", "auto", "-o", os.path.join(d, "a")] + strand + noq, d)
+        # with one and with several threads (the coverage fit runs before the pool of the build is set up)
+        thr = ["--threads", str([1, 2, 4, 3][len(paths) % 4 if False else (combos.index((k, rc)) % 4)])]
+        code_a, out, err_a = ska(["build", "-f", lst, "-k", str(k), "--min-count", "auto", "-o", os.path.join(d, "a")] + strand + noq + thr, d)
         # the cutoff is fitted on the forward files of the first two samples
         code_c, out, err_c = ska(["cov", paths[0], paths[2], "-k", str(k)] + strand, d)
         evals += 1
@@ -1187,6 +1222,14 @@ def c20_cli(ctx, broken):
                     for _c in range(mult):
                         s_ = revcomp(sq) if (rc and rnd.random() < 0.5) else sq
                         (r1 if rnd.random() < 0.5 else r2).append(s_ + ":" + qual_letters(rnd, k))
+            if it == 1:
+                # the far end of the table: fragments of k + 49 bases (50 split k-mers each) read 999, 1000 and 1001
+                # times, the counts around the largest multiplicity the table can hold
+                for mult in (999, 1000, 1001):
+                    frag = rand_genome(rnd, k + 49)
+                    for c_ in range(mult):
+                        s_ = revcomp(frag) if (rc and c_ % 3 == 0) else frag
+                        (r1 if c_ % 2 == 0 else r2).append(s_ + ":" + qual_letters(rnd, len(s_)))
             if not r1:
                 r1.append(r2.pop())
             if not r2:
@@ -1338,6 +1381,8 @@ def c03_cli(ctx, broken):
             continue
         d = fresh_dir(ctx, "c03cli")
         files = []
+        # sample names that are NOT in byte order (a reference first, s10 after s9, mixed case): rows come in input order
+        c03names = lo_names(nsamp)
         for si, s in enumerate(seqs):
             recs = list(s)
             order = list(range(len(recs)))
@@ -1345,12 +1390,17 @@ def c03_cli(ctx, broken):
             recs = [recs[i] for i in order]
             if rc:
                 recs = [revcomp(r) if rnd.random() < 0.4 else r for r in recs]
-            f = os.path.join(d, f"s{si}.fa")
+            f = os.path.join(d, f"{c03names[si]}.fa")
             write_fasta(f, recs)
             files.append(f)
+        # half of the families are handed over through a file list (-f) instead of positional arguments
+        use_list = (tries % 2 == 1)
+        if use_list:
+            lst = os.path.join(d, "inputs.tsv")
+            open(lst, "w").write("".join(f"{c03names[si]}\t{files[si]}\n" for si in range(nsamp)))
         # the output prefix as users write it: plain, with dots (a k value, a version), or already ending in .skf
         pref, skf_path = out_prefix(d, "x", tries)
-        args = ["build", "-o", pref, "-k", str(k), "--threads", str(threads)] + ([] if rc else ["--single-strand"]) + files
+        args = ["build", "-o", pref, "-k", str(k), "--threads", str(threads)] + ([] if rc else ["--single-strand"]) + (["-f", lst] if use_list else files)
         code, out, err = ska(args, d)
         if code != 0:
             return {"summary": {"evaluations": evals, "nontrivial": nontriv}, "violation": {"kind": "c03-family", "what": "build failed", "stderr": err[-300:], "k": k, "threads": threads, "family": seqs}}
@@ -1372,7 +1422,7 @@ def c03_cli(ctx, broken):
             return min(col, col.translate(comp))
         want = sorted(norm("".join(fam[si][ci][p] for si in range(nsamp))) for (ci, p) in sites)
         got = sorted(norm(c) for c in cols)
-        ok = (names == [f"s{i}" for i in range(nsamp)] and len(lens) == 1 and got == want
+        ok = (names == c03names and len(lens) == 1 and got == want
               and (rc or sorted(cols) == sorted("".join(fam[si][ci][p] for si in range(nsamp)) for (ci, p) in sites)))
         if sites:
             nontriv += 1
@@ -1389,7 +1439,7 @@ def c03_cli(ctx, broken):
             a2 = [l for l in out2.splitlines() if not l.startswith(">")]
             n2 = [l[1:] for l in out2.splitlines() if l.startswith(">")]
             c2 = sorted(norm("".join(x[i] for x in a2)) for i in range(len(a2[0]))) if a2 and a2[0] else []
-            if code != 0 or c2 != want or n2 != [f"s{i}" for i in range(nsamp)]:
+            if code != 0 or c2 != want or n2 != c03names:
                 return {"summary": {"evaluations": evals, "nontrivial": nontriv},
                         "violation": {"kind": "c03-family", "what": "`ska align <fastas>` differs from the planted SNP columns", "k": k, "sites": sites, "family": seqs}}
     return {"summary": {"evaluations": evals, "nontrivial": nontriv, "families_rejected_by_repeat_check": tries - evals,
@@ -1876,6 +1926,13 @@ def c18_cli(ctx, broken):
         nm = lo_names_ok(os.path.join(d, "o"), snames, False)
         if nm:
             return viol("sample columns are not in input order: " + nm, k=k, samples=seqs)
+        # the same file with another thread count: every row of the file must reach the graph whatever the split
+        t2 = rnd.choice([t for t in (1, 2, 3, 4) if t != threads])
+        code2, out2, err2 = ska(["lo", os.path.join(d, "x.skf"), os.path.join(d, "o2"), "--threads", str(t2), "-m", "0.5"], d)
+        evals += 1
+        if code2 != 0 or lo_free_canon(os.path.join(d, "o2")) != lo_free_canon(os.path.join(d, "o")):
+            return viol("ska lo reports other indels / SNPs with another thread count", threads=[threads, t2], exit=code2, k=k, samples=seqs,
+                        first=str(lo_free_canon(os.path.join(d, "o")))[:500], second=str(lo_free_canon(os.path.join(d, "o2")) if code2 == 0 else None)[:500])
         recs = [l.rstrip("\n").split("\t") for l in open(os.path.join(d, "o_indels.vcf")) if not l.startswith("#")]
         planted_total += len(indels)
         matched = set()
@@ -1895,18 +1952,24 @@ def c18_cli(ctx, broken):
             if set0 != {si for si, g in enumerate(gts) if g in ("0", "0/1")} or set1 != {si for si, g in enumerate(gts) if g in ("1", "0/1")}:
                 return viol("the genotyped sample sets are not exactly the carriers of REF / ALT", record=f[:9], carriers0=sorted(set0), carriers1=sorted(set1), genotypes=gts, k=k, samples=seqs)
             # which planted indel is it? carriers of the shorter allele = deletion carriers / non-insertion carriers
-            hit = None
+            cands = []
+            insert = refa if alta == "-" else alta
             for ii, (p, kind, ln, carriers, seq) in enumerate(indels):
                 short_carriers = carriers if kind == "del" else set(range(nsamp)) - carriers
                 short = "0" if len(alle["0"]) < len(alle["1"]) else "1"
                 got_short = set0 if short == "0" else set1
                 if abs(len(alle["0"]) - len(alle["1"])) == ln and got_short == short_carriers:
-                    hit = ii
-            if hit is None:
+                    # two planted indels can share length and carriers: tell them apart by the inserted / deleted
+                    # letters (up to the rotation a sliding indel allows, either strand)
+                    rots = {seq[i:] + seq[:i] for i in range(len(seq))}
+                    same_letters = insert in rots or revcomp(insert) in rots
+                    cands.append((not same_letters, ii))
+            if not cands:
                 return viol("a reported indel corresponds to no planted indel", record=f[:9], planted=[(p, kd, ln, sorted(c)) for (p, kd, ln, c, _) in indels], k=k, samples=seqs)
-            if hit in matched:
+            free = [ii for (_, ii) in sorted(cands) if ii not in matched]
+            if not free:
                 return viol("an indel is reported twice", record=f[:9], k=k, samples=seqs)
-            matched.add(hit)
+            matched.add(free[0])
         found_total += len(matched)
         nontriv += 1
         if len(samples) < 2:
@@ -2067,7 +2130,10 @@ def hist_via_cli(ctx, line):
                 args = ["weed", cur]
                 if f[1] != "~":
                     wf = os.path.join(d, f"weed{step}.fa")
-                    write_fasta(wf, f[1].split("+"))
+                    wrecs = f[1].split("+")
+                    # record names are labels, not keys: in some files every record has the same first word
+                    wnames = [f"IS1 copy_{i}" for i in range(len(wrecs))] if (blank_style + step) % 2 == 0 else None
+                    write_fasta(wf, wrecs, names=wnames, wrap=[None, 11, 60][(blank_style + step) % 3], crlf=((blank_style + step) % 5 == 0))
                     args.append(wf)
                 code, out, err = ska(["nk", cur], d)
                 n = len(parse_nk(out).get("names", []))
@@ -2139,7 +2205,10 @@ def hist_via_cli(ctx, line):
             items = []
             for l in o.splitlines()[1:]:
                 p = l.split("\t")
-                items.append(f"{p[0]}-{p[1]}:~{round(float(p[2]) * 100)}:~{round(float(p[3]) * 100000)}")
+                def _num(x, scale):
+                    v = float(x)
+                    return "not-finite" if (math.isnan(v) or math.isinf(v)) else str(round(v * scale))
+                items.append(f"{p[0]}-{p[1]}:~{_num(p[2], 100)}:~{_num(p[3], 100000)}")
             out_parts.append(f"dist[{','.join(items) or '~'}]")
         else:
             out_parts.append("-")
